@@ -1670,11 +1670,36 @@ def truc_rule_replay(ctx, crate):
     else:
         ctx.inst('V-MAP', 'returns Ok(variants_mapping)')
     # V-DELTA: what is added / removed per variant
-    def data_of(op):
+    carried = {}      # local -> True when it is a vector carried from one iteration to the next
+
+    def data_of(op, depth=0):
         """collect(RecordVariant::data(x)) -> 'cur' | 'prev' | None"""
         s = trace_value(b, defs, op)[-1]
         if s[0] == 'ref' and not s[2]['p']:
             s = trace_value(b, defs, {'copy': s[2]})[-1]
+        if s[0] == 'call' and (callee_path(s[1]) or '').endswith('Deref>::deref') and depth < 4:
+            return data_of(s[1]['args'][0], depth + 1)
+        if s[0] == 'multi' and depth < 4:
+            # `let mut old = Vec::new(); loop { …; old = new; }`: empty before the first variant, then
+            # the data of the variant just replayed
+            l = s[1]
+            empties, moves, other = [], [], []
+            for d in defs.get(l, []):
+                if b.blocks[d[1]]['cleanup']:
+                    continue      # the replacement half of a drop-and-replace on the unwind path
+                if d[0] == 'call' and (callee_path(d[2]) or '').startswith('alloc::vec::Vec::<T>::new'):
+                    empties.append(d[1])
+                elif d[0] == 'stmt' and d[3]['rv']['k'] == 'use' and 'move' in d[3]['rv']['op'] and data_of(d[3]['rv']['op'], depth + 1) == 'cur':
+                    moves.append(d[1])
+                else:
+                    other.append(d)
+            in_loop = b.reachable(head, unwind=False)
+            if len(empties) == 1 and len(moves) >= 1 and not other and empties[0] not in in_loop and all(m in after_close for m in moves):
+                # every way back to the head after the close passes through the hand-over
+                if head not in b.reachable(b.blocks[bb_close]['term']['t'], unwind=False, removed_blocks=moves):
+                    carried[l] = True
+                    return 'prev'
+            return None
         if s[0] == 'call' and (callee_path(s[1], resolved=False) or '').endswith('Iterator::collect'):
             dt = trace_value(b, defs, s[1]['args'][0])[-1]
             if dt[0] == 'call' and callee_path(dt[1]) == T + 'RecordVariant::data':
@@ -1721,9 +1746,9 @@ def truc_rule_replay(ctx, crate):
             return inner[0] == 'call' and (callee_path(inner[1]) or '').endswith('::contains')
         return False
 
-    def filtered_collect(call):
+    def filtered_collect(call, start=None):
         """collect(<iter over X>.filter(|d| !Y.contains(d))) -> (label X, label Y, negated) or None"""
-        cur = call['args'][0]
+        cur = call['args'][0] if start is None else start
         against = neg = None
         for _ in range(10):
             s = trace_value(b, defs, cur)[-1]
@@ -1765,6 +1790,10 @@ def truc_rule_replay(ctx, crate):
                     outs.add(('all', data_of({'copy': {'l': s[1]['dest']['l'], 'p': [], 'ty': None}})))
             elif s[0] == 'call' and (callee_path(s[1]) or '').startswith('alloc::vec::Vec::<T>::new'):
                 outs.add(('empty',))
+            elif s[0] == 'call' and (callee_path(s[1], resolved=False) or '').endswith('Iterator::filter'):
+                # a lazily filtered iterator handed to the loop as it is
+                fc = filtered_collect(s[1], start={'move': {'l': s[1]['dest']['l'], 'p': [], 'ty': None}})
+                outs.add(fc if fc is not None else ('?', 'filter'))
             else:
                 outs.add(('?', str(s[0])))
         return outs
@@ -1790,6 +1819,11 @@ def truc_rule_replay(ctx, crate):
     want_rm = {('prev', 'cur', True), ('empty',)}
     got_add = kind_of(add_coll) if add_coll else {('?',)}
     got_rm = kind_of(rm_coll) if rm_coll else {('?',)}
+    if carried:
+        # with a carried vector that starts empty, "everything for the first variant" and "nothing
+        # removed for the first variant" are instances of the general case
+        want_add = {('cur', 'prev', True)}
+        want_rm = {('prev', 'cur', True)}
     if got_add != want_add:
         ctx.add(['C20'], 'V-DELTA', b.key, 'the data replayed as additions are %s; expected (current variant minus previous variant) or, for the first variant, all of it' % sorted(map(str, got_add)), key='delta-add')
     else:
@@ -1804,6 +1838,8 @@ def truc_rule_replay(ctx, crate):
         if st['k'] == 'assign' and st['rv']['k'] == 'aggregate' and st['rv'].get('adt') == 'core::option::Option' and st['rv'].get('variant') == 'Some' and 'RecordVariant' in (st['place'].get('ty') or ''):
             if bb in after_close:
                 prev_ok = True
+    if carried and not prev_ok:
+        prev_ok = True      # established by data_of: the hand-over `old = new` is on every way back to the head
     if not prev_ok:
         ctx.add(['C20'], 'V-DELTA', b.key, 'the previous-variant reference is not advanced after closing', key='prev-advance')
     else:
